@@ -393,3 +393,31 @@ impl PathSetDriver {
         self.set.shared.sync.lock().unwrap().initialized
     }
 }
+
+/// A handle of a per-pair path set, as the manager hands it to its callers, which can be kept
+/// beyond the manager's lifetime to observe what it reports after the manager is gone.
+pub struct HandleProbe(PathSetHandle);
+
+impl HandleProbe {
+    /// The handle of the pair if the manager currently manages it (starts nothing).
+    pub fn of<F: PathFetcher>(
+        manager: &MultiPathManager<F>,
+        src: IsdAsn,
+        dst: IsdAsn,
+    ) -> Option<Self> {
+        manager
+            .0
+            .managed_paths
+            .peek_with(&(src, dst), |_, (handle, _)| HandleProbe(handle.clone()))
+    }
+
+    /// Does the handle still hand out a path?
+    pub fn has_active_path(&self) -> bool {
+        self.0.shared.active_path.load().is_some()
+    }
+
+    /// The error the handle reports, rendered with `Display`.
+    pub fn current_error(&self) -> Option<String> {
+        self.0.current_error().map(|e| e.to_string())
+    }
+}
